@@ -60,13 +60,17 @@ enum Op {
     OP_VP_COPY,
     OP_VP_USE,
     OP_VP_DROP,
+    OP_OFFSETS, // C12: run the static-offset generator, "compile" its output
+    OP_RESTART, // C13: the process ends; a new one starts with nothing loaded
+    OP_DECODE,  // C13: decode the text emitted by the last encoding update
     OP_COUNT
 };
 
 inline const char* op_name(int op) {
     static const char* n[] = {"load",    "unload",  "update",  "check",
                               "relocate", "handler", "call",    "vp_make",
-                              "vp_copy", "vp_use",  "vp_drop"};
+                              "vp_copy", "vp_use",  "vp_drop", "offsets",
+                              "restart", "decode"};
     return n[op];
 }
 
@@ -128,6 +132,17 @@ struct Event {
     int alias = 0;
     int route = 0;
     int shared = 0; // virtual_shared_ptr flavour
+    // update: also run encode_dispatch_data on the compiler object returned
+    int encode = 0;
+    // offsets: per_method 1: one generator call per method, 0: one for the
+    // policy; stale 1: keep the offsets "compiled in" earlier (fault: header
+    // not regenerated); meth >= 0: after installing, add pdelta to entry ppos
+    // (slots, then strides) of that method's offsets (fault: header generated
+    // from other registrations)
+    int per_method = 0;
+    int stale = 0;
+    int ppos = 0;
+    long long pdelta = 0;
 };
 
 struct Plan {
